@@ -155,7 +155,7 @@ func checkC11(c *Ctx) (int, error) {
 			for _, p := range points {
 				for _, after := range []string{"block", "error"} {
 					for _, ch := range [][]int{{0}, {1}, {3}, {4096}} {
-						for _, sk := range []RSource{{Kind: "plain"}, {Kind: "bufio", BufSize: 4096}, {Kind: "bufio", BufSize: 64}} {
+						for _, sk := range []RSource{{Kind: "plain"}, {Kind: "bufio", BufSize: 4096}, {Kind: "bufio", BufSize: 64}, {Kind: "seeker"}, {Kind: "rich"}} {
 							src := sk
 							src.Chunks, src.FailAt, src.Released, src.After = ch, -1, p, after
 							cs := &RCase{ID: fmt.Sprintf("C11-%d", id), Kind: kind, Arch: c.Levels[id%len(c.Levels)],
